@@ -6,10 +6,7 @@
 // caller may legitimately meet.
 package verifmo
 
-import (
-	"sort"
-	"sync/atomic"
-)
+import "sort"
 
 // Order policies.
 const (
@@ -19,24 +16,40 @@ const (
 	Shuffle = 3 // a permutation derived from (salt, site, len, call counter)
 )
 
+// The policy state is deliberately plain memory touched only inside
+// //go:norace functions: atomics or a mutex here would synchronise every two
+// goroutines that iterate a map and hide real data races of the library from
+// the race detector. The simulator runs one goroutine at a time, so the
+// counters are exact there; outside the simulator (the repository's own tests
+// run against the rewritten copy) a lost update only perturbs a shuffle.
 var (
-	mode    atomic.Uint32
-	salt    atomic.Uint64
-	calls   atomic.Uint64
-	sites   atomic.Uint64 // number of Keys calls with more than one key
-	enabled atomic.Bool
+	mode  uint32
+	salt  uint64
+	calls uint64
+	sites uint64 // number of Keys calls with more than one key
 )
 
 // Set selects the policy for all following iterations and resets the call counter.
+//
+//go:norace
 func Set(m uint32, s uint64) {
-	mode.Store(m)
-	salt.Store(s)
-	calls.Store(0)
+	mode = m
+	salt = s
+	calls = 0
 }
 
 // MultiKeyCalls returns how many Keys calls so far had at least two keys, i.e.
 // how many iteration-order decisions the policy has actually taken.
-func MultiKeyCalls() uint64 { return sites.Load() }
+//
+//go:norace
+func MultiKeyCalls() uint64 { return sites }
+
+//go:norace
+func decide() (m uint32, s uint64, c uint64) {
+	sites++
+	calls++
+	return mode, salt, calls
+}
 
 func mix(x uint64) uint64 {
 	x ^= x >> 33
@@ -63,16 +76,16 @@ func Keys[M ~map[K]V, K comparable, V any](m M, site string) []K {
 	if len(keys) < 2 {
 		return keys
 	}
-	sites.Add(1)
+	md, sl, c := decide()
 	sort.Slice(keys, func(i, j int) bool { return less(any(keys[i]), any(keys[j])) })
 	n := len(keys)
-	switch mode.Load() {
+	switch md {
 	case Reverse:
 		for i, j := 0, n-1; i < j; i, j = i+1, j-1 {
 			keys[i], keys[j] = keys[j], keys[i]
 		}
 	case Rotate:
-		r := int(salt.Load() % uint64(n))
+		r := int(sl % uint64(n))
 		if r != 0 {
 			out := make([]K, 0, n)
 			out = append(out, keys[r:]...)
@@ -80,8 +93,7 @@ func Keys[M ~map[K]V, K comparable, V any](m M, site string) []K {
 			keys = out
 		}
 	case Shuffle:
-		c := calls.Add(1)
-		h := mix(hashString(salt.Load()^0xcbf29ce484222325, site) ^ mix(uint64(n)<<32|c))
+		h := mix(hashString(sl^0xcbf29ce484222325, site) ^ mix(uint64(n)<<32|c))
 		for i := n - 1; i > 0; i-- {
 			h = mix(h + 0x9e3779b97f4a7c15)
 			j := int(h % uint64(i+1))
